@@ -26,7 +26,7 @@ ASSUMPTIONS = ["internal-state differences without observable effect are logged 
 
 
 def gen(rng, i, tier):
-    return {"seed": rng.randrange(1 << 40), "n_ops": rng.choice([15, 30, 45]), "observe_every": [1, 1, 3, 2][i % 4]}
+    return {"seed": rng.randrange(1 << 40), "n_ops": rng.choice([15, 30, 45]), "observe_every": [1, 1, 3, 2][i % 4], "twin_is_copy": i % 3 == 2}
 
 
 def rejection_ops(rng, L):
@@ -149,6 +149,9 @@ def run(ctx, case):
             st, e = hist.apply(s_, w, ns)
             if st != "ok":
                 raise RuntimeError("warm-up op rejected: %s %s" % (w, H.exc_sig(e)))
+    if case.get("twin_is_copy"):
+        twin = copy.deepcopy(subject)  # the reference system is a deep copy taken before any call is rejected
+        ctx.count("history", "twin = copy.deepcopy(subject)")
     start = {"warmup": wops[1:], "source": start}
     classes = set()
     nrej = 0
